@@ -1,5 +1,5 @@
 (* C03 correspondence: cases as printed by harness/c03. *)
-From Verif Require Export Lib.Base Model.C03_ChainTime Model.C03_Controller Model.C03_Spec.
+From Verif Require Export Lib.Base Model.C03_ChainTime Model.C03_Controller Model.C03_Spec Model.C03_Delay.
 Open Scope N_scope.
 
 (* The altairDetails shadowing defect was repaired in the repository ("fix:" commit); the model is
@@ -23,7 +23,14 @@ Inductive body :=
 | BSecs (samples : list (Z * Z))
 | BHist (c : config) (init : option (bool * N)) (ops : list op) (snaps : list (option table))
         (att_log prop_log : list (N * payload)) (reorg : N * N * N) (wf : bool)
-| BMerge (ds : list fduty) (out : option (list mduty)).
+| BMerge (ds : list fduty) (out : option (list mduty))
+(* a history in which the node answers some duties requests late (Model/C03_Delay.v): every op with
+   the delay (if any) of one of its requests; observed besides the tables: the chain time's
+   current slot after each op, and for each op the jobs the scheduler accepted, each with the
+   current slot at that moment *)
+| BHistD (c : config) (init : option (bool * N)) (dops : list dop) (snaps : list (option table))
+         (clocks : list N) (setups : list (list (jname * N)))
+         (att_log prop_log : list (N * payload)) (reorg : N * N * N).
 
 Record case := { c_id : N; c_body : body }.
 
@@ -108,8 +115,20 @@ Definition agree_hist (c : config) (init : option (bool * N)) (ops : list op) (s
   let '(le, pr, cr) := reorg in
   (st_last_epoch final =? le) && (st_prev_root final =? pr) && (st_cur_root final =? cr).
 
+Definition agree_hist_d (c : config) (init : option (bool * N)) (dops : list dop) (snaps : list (option table))
+           (clocks : list N) (att_log prop_log : list (N * payload)) (reorg : N * N * N) : bool :=
+  let sts := trace_d shadowed c (init_of c init) dops in
+  let final := run_d shadowed c (init_of c init) dops in
+  list_match (fun st obs => list_match job_matches (canon (st_jobs st)) (canon obs)) sts (expand [] snaps) &&
+  list_eqb N.eqb (map st_cur sts) clocks &&
+  list_match (log_matches false) (st_att_log final) att_log &&
+  list_match (log_matches true) (st_prop_log final) prop_log &&
+  let '(le, pr, cr) := reorg in
+  (st_last_epoch final =? le) && (st_prev_root final =? pr) && (st_cur_root final =? cr).
+
 Definition agree (cs : case) : bool :=
   match c_body cs with
+  | BHistD c init dops snaps clocks _ al pl reorg => agree_hist_d c init dops snaps clocks al pl reorg
   | BTime p probes slots epochs => agree_time p probes slots epochs
   | BSecs samples => forallb (fun s => (seconds_f64_trunc (fst s) =? snd s)%Z) samples
   | BHist c init ops snaps al pl reorg wf =>
@@ -265,7 +284,9 @@ Section PHist.
     | _ => false
     end.
 
-  Definition step_ok (o : op) (e_ : env) (cur : N) (ts : list touch) (B A : table) : bool :=
+  (* [curf k e]: the current slot when the duties of class (k, e) were obtained, i.e. when their jobs
+     are set up ([cur] itself unless the node answered that request late) *)
+  Definition step_ok_g (o : op) (e_ : env) (cur : N) (curf : kind -> N -> N) (ts : list touch) (B A : table) : bool :=
     (* every job has the right time *)
     forallb (time_ok cur) A &&
     (* attestation / proposal jobs after the op *)
@@ -276,8 +297,8 @@ Section PHist.
           match find_touch ts k e with
           | None => same_job B j                       (* untouched class: nothing new, nothing changed *)
           | Some (_, _, refresh, notcur) =>
-              if refresh then fresh_ok e_ cur notcur j
-              else same_job B j || (negb (texists B (j_name j)) && fresh_ok e_ cur notcur j)
+              if refresh then fresh_ok e_ (curf k e) notcur j
+              else same_job B j || (negb (texists B (j_name j)) && fresh_ok e_ (curf k e) notcur j)
           end
       end) A &&
     (* jobs that disappeared *)
@@ -297,7 +318,7 @@ Section PHist.
       | KAtt =>
           forallb (fun d =>
             let s := ad_slot d in
-            if (ep_of s =? e) && negb (s <? cur) && negb ((s =? cur) && notcur) then
+            if (ep_of s =? e) && negb (s <? curf k e) && negb ((s =? curf k e) && notcur) then
               match tget A (JAtt s) with
               | Some j => same_job B j || memb triple_eqb (ad_val d, ad_comm d, ad_vci d) (j_pay j)
               | None => may_remove o cur (JAtt s)     (* refreshed and fast-tracked by the same head event *)
@@ -306,10 +327,13 @@ Section PHist.
       | KProp =>
           forallb (fun d =>
             let s := pd_slot d in
-            if (ep_of s =? e) && negb (s <? cur) && negb ((s =? cur) && notcur) then
+            if (ep_of s =? e) && negb (s <? curf k e) && negb ((s =? curf k e) && notcur) then
               texists A (JProp s) && (texists A (JEarly s) || negb (0 <? c_prop_delay c)%Z)
             else true) (alookup (e_prop e_) e)
       end) ts.
+
+  Definition step_ok (o : op) (e_ : env) (cur : N) (ts : list touch) (B A : table) : bool :=
+    step_ok_g o e_ cur (fun _ _ => cur) ts B A.
 
   (* the tracker *)
   Record tracker := {
@@ -427,33 +451,44 @@ Section PHist.
     | _ => []
     end.
 
-  Definition sync_new_ok (fork : N) (e_ : env) (cur : N) (ps : list (N * bool)) (j : job) : bool :=
+  (* [cur1f P]: the current slot when the node's answer for period P arrived (second clamp of the
+     first slot, the loop's current-slot test); the window is computed before the request, from [cur] *)
+  Definition sync_new_ok_g (fork : N) (e_ : env) (cur : N) (cur1f : N -> N) (ps : list (N * bool)) (j : job) : bool :=
     match j_name j with
     | JSync s =>
         e_vals e_ && (fork <=? ep_of cur) &&
         existsb (fun pn => let '(P, nc) := pn in
-                   (sync_lo fork cur P <=? s) && (s <=? sync_hi fork P) && negb ((s =? cur) && nc) &&
+                   (sync_lo fork cur P <=? s) && (cur1f P <=? s) && (s <=? sync_hi fork P) && negb ((s =? cur1f P) && nc) &&
                    pay_eqb (j_pay j) (exp_sync e_ P) &&
                    negb (match exp_sync e_ P with [] => true | _ => false end)) ps
     | _ => true
     end.
 
-  Definition sync_complete (handling : bool) (fork : N) (o : op) (e_ : env) (cur : N) (A : table) : bool :=
+  Definition sync_new_ok (fork : N) (e_ : env) (cur : N) (ps : list (N * bool)) (j : job) : bool :=
+    sync_new_ok_g fork e_ cur (fun _ => cur) ps j.
+
+  Definition sync_complete_g (handling : bool) (fork : N) (o : op) (e_ : env) (cur : N) (cur1f : N -> N) (A : table) : bool :=
     let direct := match o with SchedSync _ _ => true | RefreshSync _ | Start => handling | _ => false end in
     if negb direct then true else
     forallb (fun pn => let '(P, nc) := pn in
                if e_vals e_ && (fork <=? ep_of cur) && negb (match exp_sync e_ P with [] => true | _ => false end)
-               then forallb (fun s => ((s =? cur) && nc) || texists A (JSync s)) (slot_range (sync_lo fork cur P) (sync_hi fork P))
+               then forallb (fun s => (s <? cur1f P) (* passed while the request was outstanding: no job is claimed *)
+                                      || ((s =? cur1f P) && nc) || texists A (JSync s)) (slot_range (sync_lo fork cur P) (sync_hi fork P))
                else true)
             (match o with
              | Start => [(ep_of cur / c_period c, true)]     (* a start-up covers the rest of the current period at once *)
              | _ => sync_periods o cur
              end).
 
-  Definition sync_step_ok (init : option (bool * N)) (o : op) (e_ : env) (cur : N) (B A : table) : bool :=
+  Definition sync_complete (handling : bool) (fork : N) (o : op) (e_ : env) (cur : N) (A : table) : bool :=
+    sync_complete_g handling fork o e_ cur (fun _ => cur) A.
+
+  Definition sync_step_ok_g (init : option (bool * N)) (o : op) (e_ : env) (cur : N) (cur1f : N -> N) (B A : table) : bool :=
     let '(handling, fork) := fork_of init in
-    forallb (fun j => same_job B j || sync_new_ok fork e_ cur (sync_periods o cur) j) A &&
-    sync_complete handling fork o e_ cur A.
+    forallb (fun j => same_job B j || sync_new_ok_g fork e_ cur cur1f (sync_periods o cur) j) A &&
+    sync_complete_g handling fork o e_ cur cur1f A.
+  Definition sync_step_ok (init : option (bool * N)) (o : op) (e_ : env) (cur : N) (B A : table) : bool :=
+    sync_step_ok_g init o e_ cur (fun _ => cur) B A.
 
   (* Start-up / restart completeness for sync committee duties, over the whole history.  Once a
      controller built by the public constructor runs on a chain at or past its Altair fork, with
@@ -493,6 +528,54 @@ Section PHist.
     | _, _ => false
     end.
 
+  (* Histories with late answers.  Every job is set up for a slot that has not passed AT THE TIME
+     IT IS SET UP: the scheduler accepted it while the current slot was [at_], and the slot of an
+     attestation / proposal / sync committee preparation job is not earlier than that -- strictly
+     later in a (re)start and for the proposals of a refresh, which are told not to schedule the
+     current slot.  The per-class clauses of [step_ok_g] are
+     evaluated with the clock of the moment the answer arrived. *)
+  Definition setups_ok (o : op) (cur0 : N) (su : list (jname * N)) : bool :=
+    let strict_all := match o with Start => true | _ => false end in
+    let strict_prop := match o with Start | RefreshProp _ | Head _ _ _ => true | _ => false end in
+    forallb (fun x => let '(n, at_) := x in
+      match n with
+      | JAtt s => (at_ <=? s) && negb (strict_all && (s =? at_))
+      | JProp s | JEarly s => (at_ <=? s) && negb (strict_prop && (s =? at_))
+      | JSync s => (at_ <=? s) && negb (strict_all && (s =? at_))
+      | JPrep _ => true
+      end) su.
+
+  Definition rk_of (k : kind) : rkind := match k with KAtt => RAtt | KProp => RProp end.
+
+  Fixpoint walk_d (init : option (bool * N)) (k : tracker) (B : table) (ops : list dop) (clocks : list N)
+           (setups : list (list (jname * N))) (tabs : list table) : bool :=
+    match ops, clocks, setups, tabs with
+    | [], [], [], [] => true
+    | (o, d) :: ops', clk :: clocks', su :: setups', A :: tabs' =>
+        let B' := match o with Start => [] | _ => B end in
+        let cur := k_cur k in
+        let cur1 := k_cur (track k o) + dslots d in      (* [track] moves the clock for Advance only *)
+        let curf := fun kd e => if hits d (rk_of kd) e then cur1 else cur in
+        let cur1f := fun P => if hits d RSync P then cur1 else cur in
+        let k' := track (track k o) (Advance cur1) in
+        (clk =? cur1) &&
+        step_ok_g o (k_env k) cur curf (touches k o B') B' A && tick_ok k o A && sync_ok init A &&
+        sync_step_ok_g init o (k_env k) cur cur1f B' A &&
+        setups_ok o cur su &&
+        sync_cover init k' A &&
+        walk_d init k' A ops' clocks' setups' tabs'
+    | _, _, _, _ => false
+    end.
+
+  Definition k_init (init : option (bool * N)) : tracker :=
+    {| k_cur := 0; k_env := empty_env; k_started := match init with Some _ => true | None => false end;
+       k_last := 0; k_prev := 0; k_croot := 0; k_ticked := [];
+       k_start_ep := 0; k_envs := []; k_fired := []; k_mono := true |}.
+
+  Definition P_hist_d (init : option (bool * N)) (ops : list dop) (snaps : list (option table))
+             (clocks : list N) (setups : list (list (jname * N))) : bool :=
+    walk_d init (k_init init) [] ops clocks setups (expand [] snaps).
+
   Fixpoint nodup_b (l : list N) : bool :=
     match l with [] => true | x :: l' => negb (memb N.eqb x l') && nodup_b l' end.
 
@@ -513,6 +596,7 @@ Definition P_b (cs : case) : bool :=
   | BTime p probes slots epochs => P_time p probes slots epochs
   | BSecs _ => true
   | BHist c init ops snaps al pl _ wf => P_hist c init ops snaps al pl wf
+  | BHistD c init dops snaps clocks setups _ _ _ => P_hist_d c init dops snaps clocks setups
   | BMerge ds (Some out) => P_merge ds out
   | BMerge ds None => false
   end.
